@@ -53,6 +53,8 @@ def tasks(tier):
                                                                                  why="ext0 and dof0 handed to the solver come from dof.apply / dof.partition")))
     ts.append(("prescribed values on a third field (u, p, J)", "run_included", dict(modname="c08", fname="run_three_fields", kwargs=dict(dim=2), oid="C07.O8",
                                                                                  why="a boundary on the n-th field of a mixed container is honoured only if dof.apply writes its value at that field's cumulative offset")))
+    ts.append(("item multipliers in the residual and tangent", "run_included", dict(modname="c01_items", fname="run_multiplier", kwargs={}, oid="C07.O9",
+                                                                                why="the returned field solves sum_i m_i f_i(u) = 0 only if every item enters fun_items / jac_items with its multiplier exactly once")))
     ts.append(("tools.solve", "run_tools_solve", {}))
     # the same obligations on the inputs the generic evaluation leaves out: values that are unequal but within numpy's isclose tolerance
     for p in ([True], [False, True], [False, False]):
